@@ -9,11 +9,11 @@ E2_NOTE = ("Trusted: rustc/std, the reference renderer R and typed operator tabl
            "vrt's driver. Bounded: chains/profiles/operands beyond the enumerated bound are not covered.")
 
 E3T_NOTE = ("Trusted: rustc/std, the baton scheduler rt/vsched (self-tested on every run: 90 orders of the 3x2 multinomial program, identical replay) "
-            "and the vstd shim that makes the unmodified expansion's ::std::thread resolve to it; sequential consistency at visible operations "
+            "and the vstd shim that makes the unmodified expansion's ::std::thread resolve to it (an execution whose running thread blocks outside the scheduler is flagged uncontrolled and makes the run non-exhaustive); sequential consistency at visible operations "
             "(the expansion is safe Rust whose threads communicate only through spawn arguments and join results). Bounded by the enumerated programs.")
 
 E3A_NOTE = ("Trusted: rustc/std, futures 0.3.26 (explored, not modelled), the deterministic executor rt/vexec and the tokio shim rt/vtokio "
-            "(spawn/JoinHandle/JoinError semantics the expansion relies on); explicit-state pruning on a canonical state whose adequacy is cross-checked "
+            "(spawn/JoinHandle/JoinError semantics the expansion relies on; the runtime flavour is an explored answer; tokio's own join!/try_join! are the real ones); explicit-state pruning on a canonical state whose adequacy is cross-checked "
             "against the unpruned exploration of the small programs on every run. Real tokio scheduling is covered only by the free-running E2 runs.")
 
 CLAIMED = {
@@ -35,11 +35,11 @@ CLAIMED = {
     ),
     "C03": dict(
         category="model_checking",
-        technique="stateless model checking of the generated code: exhaustive enumeration of all orders of visible operations under a controlled (baton) thread scheduler, per depth profile",
+        technique="stateless model checking of the generated code: exhaustive enumeration of all orders of visible operations under a controlled (baton) thread scheduler, per depth profile, and of all wake-up / task-schedule decision sequences under a deterministic executor; single-branch programs additionally compiled through the real macros and compared with the reference (differential)",
         text="For every depth profile and thread-spawning macro the real expansion is executed under every order of visible operations (callbacks, operands, captures); in every execution no step-(k+1) event precedes a step-k event and every branch continues from its own value. Sequential macros are decided by exact trace equality in the C04-C06 families.",
         design_ref="DESIGN.md §4 C03, §2.5",
-        note=E3T_NOTE + " " + E3A_NOTE,
-        engine="E3-T+E3-A",
+        note=E3T_NOTE + " " + E3A_NOTE + " " + E2_NOTE,
+        engine="E2+E3-T+E3-A",
     ),
     "C04": dict(
         category="exploration",
